@@ -143,7 +143,7 @@ DefaultOf(e) ==
 
 PathTemplateOf(e, name) ==
   IF e.kind # "out" THEN ""
-  ELSE IF e.suf = "$" THEN e.tmpl
+  ELSE IF e.suf = "$" THEN name \o "-" \o e.tmpl      \* the text written after `$` (made unique per field)
   ELSE name \o EffType(e).ext           \* "based on its name and extension (if applicable)"
 
 Field(e, name, idx) ==
@@ -161,7 +161,7 @@ Field(e, name, idx) ==
 ElemText(e, name) ==
   LET tytxt  == IF e.ty.k = "none" THEN "" ELSE ":" \o TypeText(e.ty)
       suftxt == CASE e.suf = "=" -> "=" \o e.dflt.txt
-                  [] e.suf = "$" -> "$" \o e.tmpl
+                  [] e.suf = "$" -> "$" \o name \o "-" \o e.tmpl
                   [] OTHER       -> e.suf
   IN CASE e.kind = "flag" -> e.opt \o "<" \o name \o suftxt \o ">"
        [] e.kind = "arg"  -> (IF e.opt = "" THEN "" ELSE e.opt \o " ") \o "<" \o name \o tytxt \o suftxt \o ">"
